@@ -435,6 +435,10 @@ class HyASTCompiler:
                     )
                 ret += self.compile(expr[1])
                 if dict_display:
+                    if len(compiled_exprs) % 2:
+                        raise self._syntax_error(
+                            expr, "dictionary literal needs a value for each key"
+                        )
                     compiled_exprs.append(None)
                     compiled_exprs.append(ret.force_expr)
                 elif with_kwargs:
